@@ -500,3 +500,101 @@ def ob_mono_order(r, tier, seed):
 
 def obligations_c13():
     return [Ob('O13.10-mono-instance-order', 'the order of the functions emitted by mono::mono is independent of hash iteration order', ob_mono_order, ('quick', 'thorough'), 3, {})]
+
+# ----------------------------------------------------------------------------- O7.7 non-generic definitions that mention generic types
+def replay_def_residue(tsh, kind):
+    src = 'enum Opt[T] { Non, Som(T) }\nstruct B[X] { v: X }\n'
+    src += ('struct H { f: %s }\n' if kind == 'struct' else 'enum K { V(%s), W }\n') % goml_ty(tsh)
+    src += ('fn mk() -> H { mk() }\n' if kind == 'struct' else 'fn mk() -> K { K::W }\n') + 'fn main() -> unit { let x = mk(); () }\n'
+    d = tempfile.mkdtemp(prefix='vf-c07-')
+    try:
+        open(os.path.join(d, 'main.gom'), 'w').write(src)
+        p = subprocess.run([build.compiler_bin(), 'run', '--dump-go', os.path.join(d, 'main.gom')], capture_output=True, text=True, timeout=60)
+    finally: shutil.rmtree(d, ignore_errors=True)
+    txt = p.stdout + p.stderr
+    pan = [l for l in txt.splitlines() if 'panicked' in l or 'generic types not supported' in l]
+    return bool(pan), 'goml program `%s` -> %s' % (src.replace('\n', ' | '), pan[:2] if pan else txt[:200].replace('\n', ' | '))
+
+def ob_def_types(r, tier, seed, top, inner, depth):
+    W = e2.fresh_world(CRATES); tt = W.tt; TY = tt.find_adt(['tast', 'Ty'], 'compiler'); W.step_limit = 400000
+    ED = tt.find_adt(['env', 'EnumDef'], 'compiler'); SD = tt.find_adt(['env', 'StructDef'], 'compiler'); TI = tt.find_adt(['tast', 'TastIdent'], 'compiler')
+    CE = tt.find_adt(['core', 'Expr'], 'compiler'); CF = tt.find_adt(['core', 'Fn'], 'compiler'); CFILE = tt.find_adt(['core', 'File'], 'compiler'); PR = tt.find_adt(['common', 'Prim'], 'compiler')
+    GE = tt.find_adt(['env', 'GlobalTypeEnv'], 'compiler'); TEV = tt.find_adt(['env', 'TypeEnv'], 'compiler'); ME = tt.find_adt(['mono', 'GlobalMonoEnv'], 'compiler')
+    bases = ('Opt', 'B')
+    r.bounds = 'a program with the generic enum Opt[T] { Non, Som(T) }, the generic struct B[X] { v: X } and one non-generic definition `struct H { f: t }` or `enum K { V(t), W }`, t a concrete type of depth <= %d: top constructor in %s, inner in %s, leaves int32 / bool; main does nothing' % (depth, top, inner)
+    r.assumptions = ['names::ty_compact (external `pretty` crate) replaced by an injective stand-in', 'oracle: after mono::mono no struct / enum definition the Go backend will see (generics empty) has a field type containing an application of a generic enum / struct, and every struct / enum name a field mentions is defined']
+    def ident(n): return Agg(TI.key, 0, [mkstr(n)])
+    def m_ty_compact(ex, a): return mkstr(json.dumps(shape(ex.deref(a[0]), TY), sort_keys=True).replace(' ', ''))
+    W.stubs['ty_compact'] = m_ty_compact
+    class S2(Spec):
+        def make_adt(s, ex, adt, d, path, subst):
+            if adt.name == 'Ty': s.allowed['Ty'] = top if d == depth else inner
+            return Spec.make_adt(s, ex, adt, d, path, subst)
+    spec = S2(tt, allowed={'Ty': top}, leaves={'Ty': ['TInt32', 'TBool']}, strings=('A',), vec_len=(1, 1), int_choices=[2], depth=depth,
+              field_hooks={('Ty', 'TApp', 'ty'): lambda sp, ex, d, p: mkbox(Agg(TY.key, TY.vindex(ex.choose([(True, 'TEnum'), (True, 'TStruct')])), [None])),
+                           ('Ty', 'TApp', 'args'): lambda sp, ex, d, p: PyVec([sp.make_adt(ex, TY, d, p + '[0]', {})])})
+    def fixbase(v):
+        if isinstance(v, Agg) and v.ty == 'Box': fixbase(unbox(v)); return
+        if isinstance(v, PyVec):
+            for x in v.items: fixbase(x)
+            return
+        if isinstance(v, Agg) and v.ty == TY.key:
+            n = TY.variants[v.idx].name
+            if n in ('TEnum', 'TStruct') and v.fields[0] is None: v.fields[0] = mkstr('Opt' if n == 'TEnum' else 'B')
+            for f in v.fields: fixbase(f)
+    def fld(adt, agg, name): return agg.fields[[f[0] for f in adt.variants[0].fields].index(name)]
+    def names_in(sh, out):
+        if sh['k'] in ('TStruct', 'TEnum'): out.append(sh.get('name'))
+        if 'base' in sh: names_in(sh['base'], out)
+        for x in sh.get('a', []): names_in(x, out)
+        return out
+    def entry(ex):
+        kind = ex.choose([(True, 'struct'), (True, 'enum')])
+        t = force(ex, spec.root(ex, 'tast::Ty', tag='t')); fixbase(t); tsh = shape(t, TY)
+        genv = ex.call('env::GlobalTypeEnv::new_empty', [])
+        tenv = fld(GE, genv, 'type_env'); enums = fld(TEV, tenv, 'enums'); structs = fld(TEV, tenv, 'structs')
+        tparam = lambda n: Agg(TY.key, TY.vindex('TParam'), [mkstr(n)])
+        enums.keys.append(ident('Opt')); enums.vals.append(Agg(ED.key, 0, [ident('Opt'), PyVec([ident('T')]), PyVec([Agg('tuple', 0, [ident('Non'), PyVec([])]), Agg('tuple', 0, [ident('Som'), PyVec([tparam('T')])])])]))
+        structs.keys.append(ident('B')); structs.vals.append(Agg(SD.key, 0, [ident('B'), PyVec([ident('X')]), PyVec([Agg('tuple', 0, [ident('v'), tparam('X')])])]))
+        if kind == 'struct':
+            structs.keys.append(ident('H')); structs.vals.append(Agg(SD.key, 0, [ident('H'), PyVec([]), PyVec([Agg('tuple', 0, [ident('f'), t])])]))
+        else:
+            enums.keys.append(ident('K')); enums.vals.append(Agg(ED.key, 0, [ident('K'), PyVec([]), PyVec([Agg('tuple', 0, [ident('V'), PyVec([t])]), Agg('tuple', 0, [ident('W'), PyVec([])])])]))
+        un = Agg(TY.key, TY.vindex('TUnit'), [])
+        unit = Agg(CE.key, CE.vindex('EPrim'), [{'value': Agg(PR.key, PR.vindex('Unit'), [ms.UNIT]), 'ty': un}[f[0]] for f in CE.variants[CE.vindex('EPrim')].fields])
+        main = Agg(CF.key, 0, [{'name': mkstr('main'), 'generics': PyVec([]), 'params': PyVec([]), 'ret_ty': un, 'body': unit}[fl[0]] for fl in CF.variants[0].fields])
+        res = ex.call('mono::mono', [genv, Agg(CFILE.key, 0, [PyVec([main])])])
+        menv = res.fields[1]
+        defs = {}
+        g2 = fld(ME, menv, 'genv'); t2 = fld(GE, g2, 'type_env')
+        for src_ in (fld(TEV, t2, 'structs'), fld(ME, menv, 'mono_structs')):
+            for k, v in zip(src_.keys, src_.vals):
+                if len(v.fields[1].items) == 0: defs[ms.pystr(k.fields[0])] = [shape(f_.fields[1], TY) for f_ in v.fields[2].items]
+        for src_ in (fld(TEV, t2, 'enums'), fld(ME, menv, 'mono_enums')):
+            for k, v in zip(src_.keys, src_.vals):
+                if len(v.fields[1].items) == 0: defs[ms.pystr(k.fields[0])] = [shape(x, TY) for var in v.fields[2].items for x in var.fields[1].items]
+        return kind, tsh, defs
+    res = e2.explore(r, W, entry, [])
+    found = {}
+    for p in res:
+        r.cases += 1
+        if p.kind != 'ok': found.setdefault('panic', ('mono::mono panics: %s' % str(p.value)[:200], None, None)); continue
+        kind, tsh, defs = p.value
+        if has_app(tsh, bases): r.nontrivial += 1
+        bad = [(n, f_) for n, fs in defs.items() for f_ in fs if has_app(f_, bases)]
+        undefined = [(n, x) for n, fs in defs.items() for f_ in fs for x in names_in(f_, []) if x not in defs]
+        if bad: found.setdefault('definition-keeps-type-application:' + kind, ('after mono::mono the definition of %s still has a field of type %s (declared %s)' % (bad[0][0], json.dumps(bad[0][1])[:200], goml_ty(tsh)), tsh, kind))
+        elif undefined: found.setdefault('definition-mentions-undefined-type:' + kind, ('after mono::mono the definition of %s mentions the type %s, which is not defined (declared field type %s)' % (undefined[0][0], undefined[0][1], goml_ty(tsh)), tsh, kind))
+        elif len(r.samples) < 3 and has_app(tsh, bases): r.samples.append({'kind': kind, 'field type': goml_ty(tsh), 'definitions': sorted(defs)})
+    for key, (what, w, kind) in found.items():
+        ok_, detail = False, 'not replayed'
+        if w is not None:
+            try: ok_, detail = replay_def_residue(w, kind)
+            except Exception as e: ok_, detail = False, 'replay failed: %s' % str(e)[:200]
+        r.findings.append(Finding(key, what[:600], {'type': w}, ok_, detail))
+
+_obligations_76 = obligations
+def obligations():
+    comp = ['TTuple', 'TApp', 'TArray', 'TVec', 'TRef', 'TFunc']
+    return _obligations_76() + [Ob('O7.7-definition-types-d1', 'no non-generic struct / enum definition keeps a generic type application in a field after mono::mono: depth 1', ob_def_types, ('quick', 'thorough'), 5, dict(top=comp, inner=['TApp', 'TInt32'], depth=1)),
+                                Ob('O7.7-definition-types-d2', 'no non-generic struct / enum definition keeps a generic type application in a field after mono::mono: depth 2', ob_def_types, ('quick', 'thorough'), 10, dict(top=comp, inner=['TApp', 'TInt32'], depth=2))]
